@@ -6,11 +6,11 @@ desc={
 'C02':("exploration","seeded simulation of honest snow<->snow sessions (static keys partly from snow's own generate_keypair through the RNG seam, fresh ephemerals, lagging and interleaved transport deliveries, stateful/stateless mix, caller buffers from exact fit to 70000, payload sizes to the 65535 boundary, local failing calls and retries): completion after exactly the pattern's message count, payload equality, equal hashes","5.C02"),
 'C03':("exploration","seeded fault injection on handshake deliveries (bit flips / byte sets / field overwrites per field, truncation at field boundaries, extension, multi-edits, substitution from a parallel session with same/different statics, replay, byzantine peer with an off-curve static key), then honest continuation; oracle: model predicts accept/reject of every read and 'never both finished without error'","5.C03, 12.3"),
 'C04':("exploration","seeded fault injection on transport deliveries (alteration, reflection, cross-session, cross-direction, wrong nonce, extended maximum-size messages, authentic oversize messages from a non-conforming key holder) against a transport model that decrypts with its own AEAD; accept <=> model accepts, payload equal","5.C04"),
-'C05':("exploration","seeded delivery schedules (reorder, loss, duplication, delay, garbage, short buffers, explicit receive nonces incl. resynchronisation backwards) over stateful sessions with a receive-counter model and a fault-free epilogue (bounded liveness); plus two complete grids: all delivery sequences of length 4 over {m0,m1,m2,garbage,set_receiving_nonce} x ciphers x backends x directions, and all sequences of depth 4 over {write, deliver, synchronised rekey, manual rekey, resync back, jump to 2^64-1} with both counters placed at 2^64-3","5.C05, 12.1"),
+'C05':("exploration","seeded delivery schedules (reorder, loss, duplication, delay, garbage, short buffers, explicit receive nonces incl. resynchronisation backwards) over stateful sessions with a receive-counter model and a fault-free epilogue (bounded liveness); plus two complete grids: all delivery sequences of length 4 over {m0,m1,m2,garbage,set_receiving_nonce} x ciphers x backends x directions, and all sequences of depth 4 over {write, deliver, synchronised rekey, manual rekey, resync back, jump to 2^64-1} with both counters placed at 2^64-3; plus long histories (soak: more than 2^20 rejected deliveries, then more than 2^16 in-order messages, 3 ciphers x 2 backends x stateful/stateless receiver)","5.C05, 12.1, 13.2"),
 'C06':("exploration","recording pass-through Cipher injected through the resolver seam builds a (key, nonce) ledger over failing/retried calls, conversion, rekeys and explicit nonces (reserved nonce 2^64-1 always checked); ephemeral freshness checked against the RNG seam's per-call draw log, incl. RNG faults (invalid P-256 scalar); the complete one-failure grid (64 pattern/psk variants x DH x message index x 15 failure causes, retry, run to completion); stock random sources exercised directly (supplementary)","5.C06, 12.1"),
-'C07':("exploration","seeded failing calls (every cause, 1-4 per handshake, both sides, retransmission until success) with observables compared before/after (turn, finished, hash, nonces, remote static), shadow-model equality of all later bytes, a control run (same ops with failed calls removed, per-call deterministic RNG) whose wire trace must be identical, and the complete one-failure grid (64 pattern/psk variants x DH x message index x 15 failure causes)","5.C07, 12.1"),
+'C07':("exploration","seeded failing calls (every cause, 1-4 per handshake, both sides, retransmission until success) with observables compared before/after (turn, finished, hash, nonces, remote static), shadow-model equality of all later bytes, a control run (same ops with failed calls removed, per-call deterministic RNG) whose wire trace must be identical, the complete one-failure grid (64 pattern/psk variants x DH x message index x 15 failure causes), and long handshake histories (soak-hs: hundreds of failing writes and rejected reads before every genuine message, 10 patterns x 2 backends)","5.C07, 12.1, 13.2"),
 'C08':("exploration","configuration faults: peers booted with one differing context item (name component incl. DH function, psk index and modifier order, prologue bit/length incl. tails beyond 65535 bytes, PSK bit, over-long PSK through set_psk, pre-shared static key incl. masked bit 255); never both finished, no transport message accepted, plus cross-session transport substitution","5.C08"),
-'C09':("exploration","nonce model over interleaved successful/failing reads/writes with counters placed at 2^64-3..2^64-1 (hook for the sending side), stateless boundary nonces, manual/automatic rekeys at the boundary (complete depth-4 grid at 2^64-3), recording cipher proving 2^64-1 is only used by rekey","5.C09"),
+'C09':("exploration","nonce model over interleaved successful/failing reads/writes with counters placed at 2^64-3..2^64-1 (hook for the sending side), stateless boundary nonces, manual/automatic rekeys at the boundary (complete depth-4 grid at 2^64-3), recording cipher proving 2^64-1 is only used by rekey; long histories (soak) in which the counters pass 255/256 and 65535/65536 by counting","5.C09, 13.2"),
 'C10':("exploration","chaos driver + panic monitor (catch_unwind at every call) over all session states with adversarial buffers (incl. 1-15 bytes of slack), messages, keys of length 0..200, invalid P-256 scalars, unbuildable names, PSK arguments; the complete boundary sweep (every buffer / message length within +-2 of every field boundary for 64 pattern/psk variants x DH x message index, and around the tag in both transport modes); watchdog for non-termination (60 s per run); name strings by plain seeded generation","5.C10"),
 'C11':("exploration","random call sequences (out-of-turn, after-finish, early conversion, one-way misuse) against a 10-line state-machine model, pinned state-error variants for single-cause calls, indicators compared after every call, later divergence after a misuse attributed; plus the complete set of call sequences of depth 4 (quick) / 6 (thorough) over six calls for six patterns","5.C11, 12.1"),
 'C12':("fault_enumeration","boot half enumerated completely (38 patterns x role x key subsets x psk modifier 0..9 / multi / fallback / unbuildable spellings x denied primitive) against requirements derived from the pattern text; run-time half sampled (withheld PSKs must fail at the message that needs them, then succeed after set_psk; shuffled modifier order)","5.C12"),
